@@ -221,8 +221,12 @@ func (g *gen) next() Op {
 			seq = qs[k]
 		case y < 80:
 			seq = around(rng, g.nonce[s], -1, 3)
-		default:
+		case y < 92:
 			seq = around(rng, g.zone[s], -3, 3)
+		default:
+			// a far-future transaction of the same sender (gaps of 2^63 and more between the
+			// sender's lowest and highest pooled sequence number)
+			seq = around(rng, zoneCenters[rng.IntN(len(zoneCenters))], -3, 3)
 		}
 		o := Op{Kind: "add", Tx: g.nextID, Sender: s, Seq: seq, Prio: prios[rng.IntN(len(prios))], StateSeq: g.nonce[s]}
 		g.nextID++
